@@ -143,36 +143,40 @@ func TestVerifC14(t *testing.T) {
 		t.Fatalf("cannot build the broker binary: %v\n%s", err, out)
 	}
 	defer os.Remove(bin)
-	ln, err := net.Listen("tcp", "127.0.0.1:0")
-	if err != nil {
-		t.Fatal(err)
-	}
-	addr := ln.Addr().String()
-	ln.Close()
 	metricsFile := filepath.Join(cache, fmt.Sprintf("c14-metrics-%d.log", os.Getpid()))
 	os.WriteFile(metricsFile, []byte("snowflake-stats-end 2026-01-01 00:00:00 (86400 s)\n"), 0o644)
 	defer os.Remove(metricsFile)
-	cmd := exec.Command(bin, "-disable-tls", "-disable-geoip", "-addr", addr, "-metrics-log", metricsFile)
 	var logBuf bytes.Buffer
 	var logMu sync.Mutex
-	cmd.Stderr = &lockedWriter{w: &logBuf, mu: &logMu}
-	cmd.Stdout = io.Discard
-	if err := cmd.Start(); err != nil {
-		t.Fatal(err)
-	}
-	defer func() { cmd.Process.Kill(); cmd.Wait() }()
-	up := false
-	for i := 0; i < 200; i++ {
-		if c, err := net.DialTimeout("tcp", addr, 100*time.Millisecond); err == nil {
-			c.Close()
-			up = true
-			break
+	startBroker := func() (string, func()) {
+		ln, err := net.Listen("tcp", "127.0.0.1:0")
+		if err != nil {
+			t.Fatal(err)
 		}
-		time.Sleep(25 * time.Millisecond)
-	}
-	if !up {
+		addr := ln.Addr().String()
+		ln.Close()
+		cmd := exec.Command(bin, "-disable-tls", "-disable-geoip", "-addr", addr, "-metrics-log", metricsFile)
+		cmd.Stderr = &lockedWriter{w: &logBuf, mu: &logMu}
+		cmd.Stdout = io.Discard
+		if err := cmd.Start(); err != nil {
+			t.Fatal(err)
+		}
+		for i := 0; i < 200; i++ {
+			if c, err := net.DialTimeout("tcp", addr, 100*time.Millisecond); err == nil {
+				c.Close()
+				return addr, func() { cmd.Process.Kill(); cmd.Wait() }
+			}
+			time.Sleep(25 * time.Millisecond)
+		}
 		t.Fatal("broker binary did not start listening")
+		return "", nil
 	}
+	addr, stop := startBroker()
+	defer stop()
+	// the scripted matched/timeout flows get a broker process of their own, so that the generated
+	// traffic (whose clients would be matched with the flows' proxies) cannot interfere with them
+	flowAddr, stopFlow := startBroker()
+	defer stopFlow()
 
 	// in-process twin with the same configuration (default bridge, empty pool)
 	twin := NewBrokerContext(NullLogger())
@@ -513,7 +517,7 @@ func TestVerifC14(t *testing.T) {
 	flows := make([]flow, 3)
 	var fw sync.WaitGroup
 	post := func(path string, hdr map[string]string, body []byte, d time.Duration) c14Resp {
-		return c14Do(addr, c14Raw("POST", path, hdr, body, true), "POST", d)
+		return c14Do(flowAddr, c14Raw("POST", path, hdr, body, true), "POST", d)
 	}
 	long := time.Duration(ProxyTimeout+ClientTimeout)*time.Second + 10*time.Second
 	fw.Add(3)
